@@ -980,6 +980,42 @@ def _install(w):
         return _check_pending_start
     patch(Master, '_check_pending_start', mk_pending)
 
+    # ---- the trait code (TmVerif.Traits): per-call correspondence of traits.create_code / traits.encode ----
+    tr_mod = w.loader_mod.traits
+    w.trait_ids = {tr_mod.INVALID: 0}
+
+    def _tid(name):
+        if name not in w.trait_ids:
+            w.trait_ids[name] = len(w.trait_ids)
+        return w.trait_ids[name]
+
+    def _code_s(code):
+        return ','.join('%d:%d' % (_tid(k), v) for k, v in code.items()) or '-'
+
+    def mk_encode(orig):
+        def encode(code, traits, use_invalid=False, add_new=False):
+            if not w.enabled:
+                return orig(code, traits, use_invalid=use_invalid, add_new=add_new)
+            before = _code_s(code)
+            names = ','.join(str(_tid(t)) for t in traits) or '-'
+            res, code2 = orig(code, traits, use_invalid=use_invalid, add_new=add_new)
+            w.run.op('ftrt %s %s %d %d' % (before, names, 1 if use_invalid else 0, 1 if add_new else 0),
+                     '%d %s' % (res, _code_s(code2)))
+            w.stats['fn:traits.encode'] += 1
+            return res, code2
+        return encode
+    P.append(mock.patch.object(tr_mod, 'encode', mk_encode(tr_mod.encode)))
+
+    def mk_create_code(orig):
+        def create_code(traits):
+            r = orig(traits)
+            if w.enabled:
+                w.run.op('fcode %s' % (','.join(str(_tid(t)) for t in (traits or [])) or '-'), _code_s(r))
+                w.stats['fn:traits.create_code'] += 1
+            return r
+        return create_code
+    P.append(mock.patch.object(tr_mod, 'create_code', mk_create_code(tr_mod.create_code)))
+
     # ---- the loader's decode step (TmVerif.LoaderDecode): per-call correspondence ----------------------
     def _enc(v):
         if v is None:
